@@ -45,6 +45,28 @@ def tree_hash():
 def parse_output(out, names):
     """split cargo-kani output per harness"""
     res = {}
+    if re.search(r"^Thread \d+: Checking harness ", out, re.M):
+        # parallel (-j) terse output: de-interleave by thread
+        cur = {}      # thread -> harness
+        texts = {}    # harness -> text
+        active = None
+        for ln in out.splitlines():
+            m = re.match(r"Thread (\d+): Checking harness (\S+?)\.\.\.", ln)
+            if m:
+                cur[m.group(1)] = m.group(2)
+                texts.setdefault(m.group(2), "")
+                active = None
+                continue
+            m = re.match(r"Thread (\d+): ?(.*)$", ln)
+            if m and m.group(1) in cur:
+                active = cur[m.group(1)]
+                texts[active] += m.group(2) + "\n"
+                continue
+            if ln.startswith("Manual Harness Summary") or ln.startswith("Complete - "):
+                active = None
+            if active:
+                texts[active] += ln + "\n"
+        out = "".join(f"\nChecking harness {h}...\n{t}" for h, t in texts.items())
     blocks = re.split(r"\nChecking harness ", "\n" + out)
     for b in blocks[1:]:
         name = b.split("...")[0].strip().split()[0]
@@ -92,24 +114,36 @@ def run_group(group, tier="quick"):
             except SystemExit as e:
                 out.update(status="undecided", reason=str(e))
                 return out
-            flags = ["-Z", "function-contracts", "-Z", "stubbing", "-Z", "concrete-playback", "--concrete-playback=print"] + cfg.get("flags", [])
-            cmd = ["cargo", "kani"] + flags
-            for h in harnesses:
-                cmd += ["--harness", h["name"]]
-            cmd += ["--exact"] if cfg.get("exact", False) else []
-            cmd += ["-j", str(cfg.get("jobs", min(8, len(harnesses))))] if len(harnesses) > 1 else []
-            if len(harnesses) > 1:
-                cmd += ["--output-format", "regular"]
+            base = ["-Z", "function-contracts", "-Z", "stubbing"] + cfg.get("flags", [])
             env = dict(os.environ, CARGO_NET_OFFLINE="true", CARGO_TARGET_DIR=os.path.join(BUILD, "kani-target"))
-            t0 = time.time()
             timeout = cfg.get("timeout", 900) * (3 if tier == "thorough" else 1)
-            try:
-                p = subprocess.run(cmd, cwd=scratch, env=env, capture_output=True, text=True, timeout=timeout)
-                raw = {"stdout": p.stdout, "stderr": p.stderr[-6000:], "rc": p.returncode, "cmd": " ".join(cmd), "wall": time.time() - t0}
-            except subprocess.TimeoutExpired as e:
-                subprocess.run("pkill cbmc; pkill kani-driver; pkill cargo-kani", shell=True)
-                raw = {"stdout": (e.stdout or b"").decode() if isinstance(e.stdout, bytes) else (e.stdout or ""), "stderr": "timeout", "rc": -9,
-                       "cmd": " ".join(cmd), "wall": time.time() - t0, "timeout": True}
+
+            def invoke(names, playback):
+                cmd = ["cargo", "kani"] + base + (["-Z", "concrete-playback", "--concrete-playback=print"] if playback else [])
+                for n in names:
+                    cmd += ["--harness", n]
+                if len(names) > 1 and not playback:
+                    cmd += ["-j", str(cfg.get("jobs", min(8, len(names)))), "--output-format", "terse"]
+                t0 = time.time()
+                try:
+                    p = subprocess.run(cmd, cwd=scratch, env=env, capture_output=True, text=True, timeout=timeout)
+                    return {"stdout": p.stdout, "stderr": p.stderr[-6000:], "rc": p.returncode, "cmd": " ".join(cmd), "wall": time.time() - t0}
+                except subprocess.TimeoutExpired as e:
+                    subprocess.run("pkill cbmc; pkill kani-driver; pkill cargo-kani", shell=True)
+                    so = e.stdout.decode() if isinstance(e.stdout, bytes) else (e.stdout or "")
+                    return {"stdout": so, "stderr": "timeout", "rc": -9, "cmd": " ".join(cmd), "wall": time.time() - t0, "timeout": True}
+
+            raw = invoke([h["name"] for h in harnesses], playback=(len(harnesses) == 1))
+            if not raw.get("timeout") and len(harnesses) > 1:
+                first = parse_output(raw["stdout"], [])
+                failing = [n for n, r in first.items() if r["verdict"] == "FAILED"][:3]
+                if failing:
+                    # re-run the failing harnesses one by one with concrete playback to obtain Kani's counterexample
+                    extra = ""
+                    for n in failing:
+                        r2 = invoke([n], playback=True)
+                        extra += "\n" + r2["stdout"]
+                    raw["playback_stdout"] = extra
             if not raw.get("timeout"):
                 with open(cpath, "w") as fh:
                     json.dump(raw, fh)
@@ -119,6 +153,10 @@ def run_group(group, tier="quick"):
     out["cached"] = raw.get("cached", False)
     out["wall_s"] = raw.get("wall")
     per = parse_output(raw["stdout"], [h["name"] for h in harnesses])
+    if raw.get("playback_stdout"):
+        for n, r2 in parse_output(raw["playback_stdout"], []).items():
+            if n in per and r2.get("concrete"):
+                per[n]["concrete"] = r2["concrete"]
     if raw.get("timeout"):
         out.update(status="undecided", reason=f"kani timed out after {raw['wall']:.0f}s")
     for h in harnesses:
